@@ -703,11 +703,25 @@ fn gen_type(cx: &mut Ctx, mpath: &str, m: &mut Module, uses: &mut Vec<ItemPath>)
             placed.all_default = false;
         }
         if want > placed.end {
-            // realise the gap: explicit address or an unknown<N> field
-            if cx.rng.coin() {
-                address = Some(want);
-            } else {
-                placed.statements.push(crate::refmodel::field("_", Type::Unknown(want - placed.end), None, false));
+            // realise the gap: explicit address, an unknown<N> field (which may carry a
+            // visibility and documentation that mean nothing), or an anonymous array of wider
+            // elements that covers part of it with an address for the rest
+            let gap = want - placed.end;
+            let elem = if placed.end % 4 == 0 && gap >= 4 { Some(("u32", 4)) } else if placed.end % 2 == 0 && gap >= 2 { Some(("u16", 2)) } else { None };
+            match (cx.rng.below(5), elem) {
+                (0, Some((ty, e))) => {
+                    let k = cx.rng.range(1, gap / e);
+                    placed.statements.push(crate::refmodel::field("_", Type::ident(ty).array(k), None, false));
+                    if k * e < gap || cx.rng.chance(1, 4) {
+                        address = Some(want);
+                    }
+                }
+                (0, None) | (1, _) | (2, _) => address = Some(want),
+                _ => {
+                    let mut st = crate::refmodel::field("_", Type::Unknown(gap), None, cx.rng.chance(1, 4));
+                    st.attributes = Attributes(doc_attrs(cx.rng, cx.cfg.docs));
+                    placed.statements.push(st);
+                }
             }
             placed.n_members += 1;
             placed.sole_align = 1;
